@@ -32,7 +32,7 @@ theorem left_join_code (truth : Term → Bool) :
 /-- semi_join: the left items, in order and untouched, whose key tuple is among the right key tuples. -/
 theorem semi_join_code (truth : Term → Bool) :
     ListOfDicts_semi_join truth =
-      let ids := Term.app "set" [Term.app "map" [extract by2, Term.sym "other"]]
+      let ids := Term.app "set()" [Term.app "map" [extract by2, Term.sym "other"]]
       Out.fall [Term.app "for" [Term.sym "item", Term.sym "self", Term.app "block"
         [Term.app "if" [Term.app "In" [Term.app "call" [extract by1, Term.sym "item"], ids],
           Term.app "block" [Term.app "yield" [Term.sym "item"]], Term.app "block" []]]]] := rfl
@@ -41,7 +41,7 @@ theorem semi_join_code (truth : Term → Bool) :
     list (an empty one included: then every left item). -/
 theorem anti_join_code (truth : Term → Bool) :
     ListOfDicts_anti_join truth =
-      let ids := Term.app "set" [Term.app "map" [extract by2, Term.sym "other"]]
+      let ids := Term.app "set()" [Term.app "map" [extract by2, Term.sym "other"]]
       Out.fall [Term.app "for" [Term.sym "item", Term.sym "self", Term.app "block"
         [Term.app "if" [Term.app "NotIn" [Term.app "call" [extract by1, Term.sym "item"], ids],
           Term.app "block" [Term.app "yield" [Term.sym "item"]], Term.app "block" []]]]] := rfl
@@ -93,7 +93,7 @@ theorem full_join_code (truth : Term → Bool) :
         Out.ret [] (Term.app ".unselect" [ab, Term.sym "'_aid_'", Term.sym "'_bid_'"])
       else
         let byRev := Term.app "ListComp" [Term.app "ifexp" [Term.app "isinstance" [Term.sym "x", Term.app "tuple" [Term.sym "list", Term.sym "tuple"]],
-          Term.app "tuple" [Term.app "reversed" [Term.sym "x"]], Term.sym "x"], Term.app "in" [Term.sym "x", Term.sym "by", Term.app "if" []]]
+          Term.app "tuple()" [Term.app "reversed" [Term.sym "x"]], Term.sym "x"], Term.app "in" [Term.sym "x", Term.sym "by", Term.app "if" []]]
         let ba := Term.app ".fill_missing_keys" [Term.app ".left_join" [b', a, Term.app "*" [byRev]], Term.app "=_aid_" [Term.app "next" [counter]]]
         Out.ret [] (Term.app ".unselect" [Term.app ".sort" [Term.app "Add" [ab, ba], Term.app "=_aid_" [Term.int 1], Term.app "=_bid_" [Term.int 1]],
           Term.sym "'_aid_'", Term.sym "'_bid_'"]) := by
@@ -126,7 +126,7 @@ theorem aggregate_code (truth : Term → Bool) :
     the receiver and returns the receiver itself. -/
 theorem group_by_code (truth : Term → Bool) :
     ListOfDicts_group_by truth =
-      Out.ret [Term.app "setattr" [Term.sym "self", Term.sym "_group_keys", Term.app "tuple" [Term.sym "keys"]]] (Term.sym "self") ∧
+      Out.ret [Term.app "setattr" [Term.sym "self", Term.sym "_group_keys", Term.app "tuple()" [Term.sym "keys"]]] (Term.sym "self") ∧
     ListOfDicts_group_by_signature = ["self", "*keys"] ∧ ListOfDicts_aggregate_signature = ["self", "**key_function_pairs"] ∧
     ListOfDicts_left_join_signature = ["self", "other", "*by"] ∧ ListOfDicts_full_join_signature = ["self", "other", "*by"] :=
   ⟨rfl, rfl, rfl, rfl, rfl⟩
